@@ -631,7 +631,51 @@ impl Engine for Chaos {
         };
         let n = 1 + rng.below(30);
         let mut calls = Vec::new();
+        // Themed cases: a small pool of calls that belong together, drawn over and over, so that
+        // the multi-step conjunctions a uniform draw over everything practically never forms do
+        // occur. Theme: user-defined immediate words that consume or produce data at build time, in
+        // sources that are then rejected (their effects stay: the listed C10 finding), interleaved
+        // with stack shuffles under recording and with reverse steps.
+        let themed = rng.chance(1, 40);
         for _ in 0..n {
+            if themed {
+                const EVALS: &[&str] = &[
+                    ": zzeat immediate drop ;",
+                    ": zzeat2 immediate drop drop ;",
+                    ": zzgive immediate 7 8 ;",
+                    ": zzturn immediate swap ;",
+                    "zzeat zzunknownword",
+                    "zzeat2 zzunknownword",
+                    "zzgive zzunknownword",
+                    "zzturn ]",
+                    "zzeat",
+                    "zzgive",
+                    "10 20 swap",
+                    "1 2 3 rot",
+                    "5 6 over",
+                    "4 dup",
+                    "drop",
+                    "[ 1 2 ] unbox swap",
+                    "1 2 3 3 collect",
+                    "#( zzeat #)",
+                    "9 var zzv1 zzv1 1 + ! zzv1",
+                ];
+                let c = match rng.below(12) {
+                    0..=6 => Call::Eval((*rng.pick(EVALS)).to_string()),
+                    7 => Call::Compile((*rng.pick(EVALS)).to_string()),
+                    8 | 9 => Call::RNext(1 + rng.small(10)),
+                    10 => Call::Next(1 + rng.small(6)),
+                    _ => {
+                        if rng.chance(1, 3) {
+                            Call::Run
+                        } else {
+                            Call::Recording(true)
+                        }
+                    }
+                };
+                calls.push(c);
+                continue;
+            }
             let c = match rng.below(40) {
                 0..=17 => Call::Eval(gen_source(rng, &words)),
                 18..=21 => Call::Compile(gen_source(rng, &words)),
